@@ -500,6 +500,21 @@ fn formatter_cases(sink: &mut Sink, rng: &mut Rng) {
             }
             Err(e) => pred = Some(format!("HTML is not well-formed: {e}")),
         }
+        // the line totals of the summary are the sums over the file rows: a structure finding
+        // (whose "count" is a number of entries, not of lines) adds nothing
+        if pred.is_none() {
+            let card = |label: &str| -> Option<usize> {
+                let re = regex::Regex::new(&format!(r#"<span class="value">(\d+)</span>\s*<span class="label">{label}</span>"#)).ok()?;
+                re.captures(&out).and_then(|c| c[1].parse().ok())
+            };
+            let files: Vec<&CheckResult> = rs.iter().filter(|r| !matches!(r.violation_category(), Some(ViolationCategory::Structure { .. }))).collect();
+            let want = (files.iter().map(|r| r.raw_stats().total).sum::<usize>(), files.iter().map(|r| r.raw_stats().code).sum::<usize>());
+            if let (Some(t), Some(c)) = (card("Total Lines"), card("Code")) {
+                if (t, c) != want {
+                    pred = Some(format!("HTML summary shows Total Lines {t}, Code {c}; the file rows sum to {} and {}", want.0, want.1));
+                }
+            }
+        }
         sink.push(Case { request: format!("rows html {st_args}").trim().to_string(), implementation: idx_list(&listed), pred: pred.map_or_else(|| "ok".into(), |p| format!("FAIL {p}")), tag: format!("rows/html/{shape}") });
     } else {
         sink.skip();
